@@ -53,7 +53,9 @@ func init() {
 				return v
 			}
 			rig.rpc.set(view(tip))
-			rig.w.AddWaitForConfirmationTx("swap", "txid", 0, start, window, nil)
+			rig.vout = uint32(r.intn(3))
+			rig.rpc.wantVout = &rig.vout
+			rig.w.AddWaitForConfirmationTx("swap", "txid", rig.vout, start, window, nil)
 			rig.w.VerifNotify("swap", tip)
 			key := fmt.Sprintf("%d/%d/%d/%d/%d", confs, start, window, minedAt, reorgAt)
 			var sched []string
@@ -113,7 +115,9 @@ func init() {
 			rig := newWatchRig(3)
 			depth := uint32(int64(csv) + r.pickI64([]int64{-3, -2, -1, 0, 1, 5}))
 			rig.rpc.set(rpcView{txout: &txwatcher.TxOutResp{Confirmations: depth}})
-			rig.w.AddWaitForCsvTx("swap", "txid", 0, 100, csv, nil)
+			rig.vout = uint32(r.intn(3))
+			rig.rpc.wantVout = &rig.vout
+			rig.w.AddWaitForCsvTx("swap", "txid", rig.vout, 100, csv, nil)
 			if depth >= csv {
 				// an output that is already mature at registration is reported from a goroutine of the watcher's own
 				for k := 0; k < 400; k++ {
